@@ -373,6 +373,7 @@ def check_e2e_descriptions(res, acc, tier, rng):
         for c in combos:
             for nl in ((b"\n",) if tier == "quick" and k == 3 else (b"\n", b"\r\n")):
                 texts.add(nl.join(c))
+    texts |= {b"", b" ", b"\t", b"\n", b" \n\t\n ", b"\r\n"}
     texts = sorted(texts)
     fn = C.run_sharded("harness", "fn", ["description " + C.hx(t) for t in texts] + ["description " + C.hx(b"(\n" + t + b"\n)") for t in texts])
     res.count(2 * len(texts))
@@ -404,9 +405,9 @@ def check_e2e_descriptions(res, acc, tier, rng):
             else:
                 res.nontrivial((b"e2e-description", hn.encode(), sp.encode(), t))
         elif wst == "ok":
-            # blank text: rejected, or no description at all - never a non-empty one
-            if st == "ok" and get(j):
-                acc.spec_bad.append(("desc_spelling_e2e", "description", d, "%s description of %s, blank text %r: catalog has %r" % (sp, hn, t, get(j))))
+            # blank text: a blank description is rejected, in either spelling
+            if st == "ok":
+                acc.spec_bad.append(("desc_spelling_e2e", "description", d, "%s description of %s, blank text %r: accepted (catalog has %r), a blank description must be rejected" % (sp, hn, t, get(j))))
         else:
             if st == "ok":
                 acc.spec_bad.append(("desc_spelling_e2e", "description", d, "%s description of %s, text %r: accepted with %r although the normaliser rejects the text" % (sp, hn, t, get(j))))
